@@ -91,7 +91,7 @@ func (w *World) setLogging() {
 
 // New creates the session and the configured handlers (must run inside the driver task).
 func New(cfg Config) (*World, error) {
-	w := &World{Cfg: cfg, U: NewUniverse(cfg)}
+	w := &World{Cfg: cfg, U: NewUniverse(cfg), SharedBuf: cfg.ReuseBuf, Scribble: cfg.ReuseBuf}
 	w.setLogging()
 	if err := w.newSession(); err != nil {
 		return nil, err
